@@ -1,8 +1,184 @@
-(* C10 - assembly of the property theorems (see Proofs_*.v for the developments) *)
-From Coq Require Import List Arith Bool ZArith Lia.
+(* C10 - assembly of the property theorems (developments in Proofs_*.v) and non-vacuity examples *)
+From Coq Require Import List Arith Bool ZArith Lia PeanoNat.
 Import ListNotations.
-Require Import MV.C10.Prelude MV.C10.Gen MV.C10.Model MV.C10.Run.
+Require Import MV.C10.Prelude MV.C10.Gen MV.C10.Model MV.C10.Run MV.C10.Proofs_Util MV.C10.Proofs_BFS
+        MV.C10.Proofs_Refine MV.C10.Proofs_Trav MV.C10.Proofs_Forest MV.C10.Proofs_Check MV.C10.Proofs_Conn
+        MV.C10.Proofs_Kruskal MV.C10.Proofs_Orient MV.C10.Proofs_KModel.
 
-Lemma avoid_edge_spec : forall ha ia ab ip ob,
-  avoid_edge ha ia ab ip ob = (ha && ia) || (ab && negb ip && ob).
-Proof. intros [] [] [] [] []; reflexivity. Qed.
+(* ------------------------------------------------------------ the decisions read off the source, in one place *)
+Theorem generated_decisions :
+  (* the three BFS loops: FIFO pop, skip when seen, update when dist[v]+1 < dist[nv], store dist[v]+1, dist[root]=0,
+     derive children for every element that has a parent *)
+  (forall k, let ops := ops_of k in
+     l_popleft ops = true /\ (forall s, l_skip ops s = s) /\
+     (forall dv dnv, l_better ops dv dnv = onat_lt (onat_add dv 1) dnv) /\
+     (forall dv, l_newdist ops dv = onat_add dv 1) /\ l_root_dist ops = 0 /\
+     (forall pn, l_child ops false pn = negb pn) /\ l_child ops true true = false) /\
+  (* traverse: "BFS" pops the oldest entry, "DFS" the newest *)
+  (trav_popleft (trav_is_bfs true) = true /\ trav_popleft (trav_is_bfs false) = false) /\
+  (* Kruskal: ascending sort, accept iff not connected, weight selector, candidate filter, child filter *)
+  (kr_sort_reverse = false /\ (forall b, kr_take b = negb b) /\
+   (forall m1 m2 l c, kr_weight m1 m2 l c = if m1 then 1%Z else if m2 then l else c) /\
+   (forall ab ip, kr_all_edges ab ip = negb ab || ip) /\ (forall b, kr_keep b = negb b) /\
+   (forall b, kr_child_keep b = negb b)) /\
+  (* forests: a new root for every element not yet visited; the face forest forwards its exclusion set, the edge
+     and cell forests build plain trees (no exclusion, no avoid_boundary) *)
+  ((forall b, forest_new_root b = negb b) /\ forest_forwards_exclusions KFace = true /\
+   (forall k p, forest_cfg k p = mkCfg k false false p)).
+Proof.
+  split; [exact ops_spec|]. split; [split; reflexivity|]. split.
+  - split; [reflexivity|]. split; [exact kr_take_spec|]. split; [exact kr_weight_spec|].
+    split; [exact kr_all_edges_spec|]. split; [exact kr_keep_spec|exact kr_child_keep_spec].
+  - split; [intros []; reflexivity|]. split; [reflexivity|]. intros [] p; reflexivity.
+Qed.
+
+(* ------------------------------------------------------------ acyclicity of the parent table, explicitly *)
+Fixpoint climb (par : list (option nat)) (k : nat) (v : nat) : option nat :=
+  match k with
+  | 0 => Some v
+  | S k' => match geto par v with Some p => climb par k' p | None => None end
+  end.
+
+Lemma climb_depth c g root t : bfs_tree_spec c g root t ->
+  forall k v u, climb (t_parent t) k v = Some u -> depth_of t u + k = depth_of t v.
+Proof.
+  intros B. induction k as [|k IH]; intros v u; simpl.
+  - intros E; inversion E; lia.
+  - destruct (geto (t_parent t) v) as [p|] eqn:Ep; [|discriminate]. intros E.
+    apply IH in E. destruct (bs_par _ _ _ _ B v p Ep) as (_ & _ & _ & D). lia.
+Qed.
+
+(* no element is its own proper ancestor, and every reached element climbs to the root in depth-many steps *)
+Theorem bfs_acyclic c g root t : bfs_tree_spec c g root t ->
+  (forall k v, climb (t_parent t) k v = Some v -> k = 0) /\
+  (forall v, getb (t_seen t) v = true -> climb (t_parent t) (depth_of t v) v = Some root).
+Proof.
+  intros B. split.
+  - intros k v E. apply (climb_depth _ _ _ _ B) in E. lia.
+  - assert (H : forall d v, getb (t_seen t) v = true -> depth_of t v = d -> climb (t_parent t) d v = Some root).
+    { induction d as [|d IH]; intros v Hv Hd.
+      - simpl. destruct (Nat.eq_dec v root) as [->|Hne]; auto.
+        destruct (bs_has_par _ _ _ _ B v Hv Hne) as [p Hp]. destruct (bs_par _ _ _ _ B v p Hp) as (_ & _ & _ & D). lia.
+      - simpl. destruct (Nat.eq_dec v root) as [->|Hne].
+        + destruct (bs_root_par _ _ _ _ B) as [_ D0]. lia.
+        + destruct (bs_has_par _ _ _ _ B v Hv Hne) as [p Hp]. rewrite Hp.
+          destruct (bs_par _ _ _ _ B v p Hp) as (_ & Sp & _ & D). apply IH; auto. lia. }
+    intros v Hv. apply H; auto.
+Qed.
+
+(* ------------------------------------------------------------ traverse on the model's tree and on checked tables *)
+Theorem traverse_bfs_tree c g root t : wf_raw g -> bfs c g root = Some t ->
+  forall order_is_BFS, exists out,
+    traverse order_is_BFS (t_root t) (t_children t) = (out, true) /\
+    traversal_ok (fun v => getb (t_seen t) v = true) (t_parent t) out.
+Proof.
+  intros W E order. pose proof (bfs_correct _ _ _ _ W E) as B.
+  destruct (bs_root _ _ _ _ B) as [-> _].
+  apply (traverse_correct _ _ _ _ _ _ (bfs_tree_tables _ _ _ _ B)).
+Qed.
+
+Theorem traverse_checked c g root t par ch : wf_raw g -> bfs c g root = Some t ->
+  is_bfs_tree (length g) (adm_nbrs c g) root (t_seen t) (t_dist t) par = true ->
+  is_tree_table (length g) par ch = true ->
+  bfs_parent_ok c g root t par /\
+  forall order_is_BFS, exists out,
+    traverse order_is_BFS root ch = (out, true) /\ traversal_ok (fun v => getb (t_seen t) v = true) par out.
+Proof.
+  intros W E H1 H2. pose proof (bfs_correct _ _ _ _ W E) as B. split.
+  - now apply is_bfs_tree_sound.
+  - intros order. apply (traverse_correct _ _ _ _ _ _ (checked_tables _ _ _ _ _ _ B H1 H2)).
+Qed.
+
+(* ------------------------------------------------------------ forests of the model *)
+Lemma getl_map {A B} (f : list A -> list B) (g : list (list A)) v : f [] = [] -> getl (map f g) v = f (getl g v).
+Proof. intros H. unfold getl. rewrite <- H at 1. apply map_nth. Qed.
+
+Lemma wf_clear_forb g : wf_raw g -> wf_raw (clear_forb g).
+Proof.
+  intros W v a t Ha Ht. unfold clear_forb in *. rewrite map_length.
+  rewrite getl_map in Ha by reflexivity. apply in_map_iff in Ha as [a0 [<- Ha0]]. simpl in Ht. eapply W; eauto.
+Qed.
+
+Lemma wf_forest_graph k g : wf_raw g -> wf_raw (forest_graph k g).
+Proof. intros W. unfold forest_graph. destruct (forest_forwards_exclusions k); auto. now apply wf_clear_forb. Qed.
+
+Theorem forest_correct k polyline g :
+  wf_raw g ->
+  let c := forest_cfg k polyline in
+  let g' := forest_graph k g in
+  sym_nb (adm_nbrs c g') ->
+  let f := forest k polyline g in
+  (forall t, In t f -> bfs_tree_spec c g' (t_root t) t) /\
+  (forall v, v < length g' -> count_seen v f = 1) /\
+  NoDup (forest_roots f) /\
+  (forall t w, In t f -> conn (adm_nbrs c g') (t_root t) w -> t_root t <= w).
+Proof.
+  intros W c g' S. apply (forest_loop_correct c g' (wf_forest_graph k g W) S).
+Qed.
+
+(* ------------------------------------------------------------ non-vacuity *)
+(* a square 0-1-2-3 with the diagonal 0-2 excluded, a pendant vertex 4 behind a border edge, an isolated vertex 5 *)
+Definition ex_arc (t : nat) (forb bord : bool) := mkArc (Some t) forb bord.
+Definition ex_g : raw :=
+  [ [ex_arc 1 false false; ex_arc 3 false false; ex_arc 2 true false];
+    [ex_arc 0 false false; ex_arc 2 false false];
+    [ex_arc 1 false false; ex_arc 3 false false; ex_arc 0 true false];
+    [ex_arc 2 false false; ex_arc 0 false false; ex_arc 4 false true];
+    [ex_arc 3 false true];
+    [] ].
+Definition ex_c : cfg := mkCfg KEdge true true false.
+
+Example ex_wf : wf_raw ex_g.
+Proof.
+  intros v a t Ha Ht. do 6 (destruct v as [|v]; [simpl in Ha; repeat (destruct Ha as [<-|Ha]; [inversion Ht; subst; simpl; lia|]); contradiction|]).
+  unfold getl in Ha. rewrite nth_overflow in Ha by (simpl; lia). contradiction.
+Qed.
+
+Example ex_bfs : exists t, bfs ex_c ex_g 0 = Some t /\ t_parent t = [None; Some 0; Some 1; Some 0; None; None]
+                           /\ t_edges t = [(0, 1); (1, 2); (0, 3)] /\ t_done t = true.
+Proof. eexists. split; [vm_compute; reflexivity|]. repeat split. Qed.
+
+Example ex_sym : sym_nb (adm_nbrs (forest_cfg KEdge false) (forest_graph KEdge ex_g)).
+Proof.
+  intros u v. do 6 (destruct u as [|u]; [vm_compute; intuition (subst; vm_compute; auto)|]).
+  unfold adm_nbrs, getl. rewrite nth_overflow by (simpl; lia). simpl. contradiction.
+Qed.
+
+Example ex_forest : forest_roots (forest KEdge false ex_g) = [0; 5].
+Proof. vm_compute. reflexivity. Qed.
+
+Example ex_traverse :
+  exists t, bfs ex_c ex_g 0 = Some t /\
+            traverse true 0 (t_children t) = ([(0, None); (1, Some 0); (3, Some 0); (2, Some 1)], true) /\
+            traverse false 0 (t_children t) = ([(0, None); (3, Some 0); (1, Some 0); (2, Some 1)], true).
+Proof. eexists. split; [vm_compute; reflexivity|]. split; vm_compute; reflexivity. Qed.
+
+(* a square with a diagonal, custom weights: the forest is {1-2, 0-3, 2-3} of weight 6 *)
+Definition ex_ki : kinput :=
+  mkKI 4 [(0, 1); (1, 2); (2, 3); (0, 3); (0, 2)] [true; true; true; true; false]
+       [1; 1; 1; 1; 2]%Z [4; 1; 3; 2; 5]%Z false false false false 0.
+
+Example ex_kin_ok : kin_ok ex_ki.
+Proof. intros e He. simpl in He. do 5 (destruct e as [|e]; [simpl; lia|]). lia. Qed.
+
+Example ex_kruskal :
+  exists kt, kruskal ex_ki = Some kt /\ kt_edges kt = [(1, 2); (0, 3); (2, 3)] /\
+             kt_parent kt = [None; Some 2; Some 3; Some 0] /\ sumz (kr_key ex_ki) (kt_ids kt) = 6%Z.
+Proof. eexists. split; [vm_compute; reflexivity|]. repeat split. Qed.
+
+(* ------------------------------------------------------------ statements exported by Props.v *)
+Lemma bfs_defined c g root :
+  (root < length g -> exists t, bfs c g root = Some t) /\ (length g <= root -> bfs c g root = None).
+Proof. split; [apply bfs_some | apply bfs_none]. Qed.
+
+Lemma kruskal_minimal_model i kt : kin_ok i -> kruskal i = Some kt ->
+  forall F, idforest (edge_at (ki_edges i)) F -> incl F (kr_candidates i) ->
+            (forall u v, econn (eds (edge_at (ki_edges i)) (kr_candidates i)) u v ->
+                         econn (eds (edge_at (ki_edges i)) F) u v) ->
+            (sumz (kr_key i) (kt_ids kt) <= sumz (kr_key i) F)%Z.
+Proof. intros K E. exact (ks_min i kt (kruskal_correct i kt K E)). Qed.
+
+Lemma forest_iff_bridges (ed : nat -> nat * nat) T :
+  idforest ed T <->
+  (forall l1 e l2, T = l1 ++ e :: l2 -> ~ econn (eds ed (l1 ++ l2)) (fst (ed e)) (snd (ed e))).
+Proof. split; [apply idforest_bridge | apply bridges_idforest]. Qed.
